@@ -139,7 +139,7 @@ example : coerceInt (.float "1.5") = .error .coercion := by rfl
 example : coerceInt (.float "-0.0") = .ok (.int 0) := by rfl
 example : coerceInt (.float "nan") = .error .coercion := by rfl
 example : coerceInt (.float "inf") = .error .coercion := by rfl             -- int(inf): OverflowError caught (fix A6)
-example : coerceInt (.bool true) = .ok (.bool true) := by rfl
+example : coerceInt (.bool true) = .ok (.int 1) := by rfl                    -- accepted (known finding A8), as the integer 1
 example : coerceInt (.str "12") = .ok (.int 12) := by rfl
 example : coerceInt (.str " 7 ") = .ok (.int 7) := by rfl
 example : coerceInt (.str "1_0") = .ok (.int 10) := by rfl
